@@ -402,13 +402,13 @@ func (r *Run) storeHeapLeaf(st *State, root types.Type, name string, lt types.Ty
 	r.setHeapArr(st, n, srt, app("store", a, ref, r.termOf(v)))
 }
 
-func (r *Run) loadElemLeaf(st *State, elem types.Type, name string, lt types.Type, ref, idx string) *Val {
+func (r *Run) loadElemLeaf(st *State, elem types.Type, name string, lt types.Type, ref, idx, fam string) *Val {
 	srt := scalarSort(lt)
 	if srt == "" {
 		r.note("unmodelled", "slice element with nested slice field %s.%s", typeName(elem), name)
 		return r.freshVal(st, lt, "elem")
 	}
-	arr := r.heapArr(st, sliceArrayName(elem, name), "(Array Int "+srt+")")
+	arr := r.heapArr(st, sliceArrayName(elem, name)+fam, "(Array Int "+srt+")")
 	term := app("select", app("select", arr, ref), idx)
 	if _, _, ok := intRange(lt); ok {
 		r.rangeAssume(st, lt, term)
@@ -416,13 +416,13 @@ func (r *Run) loadElemLeaf(st *State, elem types.Type, name string, lt types.Typ
 	return mkScalar(lt, term)
 }
 
-func (r *Run) storeElemLeaf(st *State, elem types.Type, name string, lt types.Type, ref, idx string, v *Val) {
+func (r *Run) storeElemLeaf(st *State, elem types.Type, name string, lt types.Type, ref, idx, fam string, v *Val) {
 	srt := scalarSort(lt)
 	if srt == "" {
 		r.note("unmodelled", "store to slice element with nested slice field")
 		return
 	}
-	n := sliceArrayName(elem, name)
+	n := sliceArrayName(elem, name) + fam
 	arr := r.heapArr(st, n, "(Array Int "+srt+")")
 	r.setHeapArr(st, n, "(Array Int "+srt+")", app("store", arr, ref, app("store", app("select", arr, ref), idx, r.termOf(v))))
 }
@@ -450,7 +450,7 @@ func (r *Run) load(st *State, p *Ptr) *Val {
 			stt := t.Underlying().(*types.Struct)
 			v := &Val{K: KStruct, Ty: t}
 			for i := 0; i < stt.NumFields(); i++ {
-				sub := &Ptr{Kind: p.Kind, T: p.T, Idx: p.Idx, Root: p.Root, Path: append(append([]int{}, p.Path...), i)}
+				sub := &Ptr{Kind: p.Kind, T: p.T, Idx: p.Idx, Root: p.Root, Fam: p.Fam, Path: append(append([]int{}, p.Path...), i)}
 				v.Elems = append(v.Elems, r.load(st, sub))
 			}
 			return v
@@ -463,7 +463,7 @@ func (r *Run) load(st *State, p *Ptr) *Val {
 		if p.Kind == PHeap {
 			return r.loadHeapLeaf(st, p.Root, name, t, p.T)
 		}
-		return r.loadElemLeaf(st, p.Root, name, t, p.T, p.Idx)
+		return r.loadElemLeaf(st, p.Root, name, t, p.T, p.Idx, p.Fam)
 	}
 	return nil
 }
@@ -477,7 +477,7 @@ func (r *Run) store(st *State, p *Ptr, v *Val) {
 		if _, isStruct := t.Underlying().(*types.Struct); isStruct && !isOpaqueNamed(t) {
 			stt := t.Underlying().(*types.Struct)
 			for i := 0; i < stt.NumFields(); i++ {
-				sub := &Ptr{Kind: p.Kind, T: p.T, Idx: p.Idx, Root: p.Root, Path: append(append([]int{}, p.Path...), i)}
+				sub := &Ptr{Kind: p.Kind, T: p.T, Idx: p.Idx, Root: p.Root, Fam: p.Fam, Path: append(append([]int{}, p.Path...), i)}
 				if v.K == KStruct && i < len(v.Elems) {
 					r.store(st, sub, v.Elems[i])
 				}
@@ -488,7 +488,7 @@ func (r *Run) store(st *State, p *Ptr, v *Val) {
 		if p.Kind == PHeap {
 			r.storeHeapLeaf(st, p.Root, name, t, p.T, v)
 		} else {
-			r.storeElemLeaf(st, p.Root, name, t, p.T, p.Idx, v)
+			r.storeElemLeaf(st, p.Root, name, t, p.T, p.Idx, p.Fam, v)
 		}
 	}
 }
